@@ -1,7 +1,9 @@
 #!/bin/bash
 # runs every thorough tier once and prints one line per check (used via `vp run`)
 cd "$(dirname "$0")/.."
-(cd harness && cp -n /repo/Cargo.lock Cargo.lock; cargo build --offline --quiet)
+# when started with `vp run --with-repo`, build against the snapshot of /repo so that edits to /repo do not disturb the sweep
+if [ -n "$VP_RUN_REPO" ]; then sed -i "s|path = \"/repo\"|path = \"$VP_RUN_REPO\"|" harness/Cargo.toml; fi
+(cd harness && cp -n ${VP_RUN_REPO:-/repo}/Cargo.lock Cargo.lock; cargo build --offline --quiet)
 for c in C03 C13 C07 C20 C18 C11 C10 C12 C15 C04 C02 C06 C17 C14 C16 C09 C01 C05 C08 C19; do
   /usr/bin/time -f "$c %es" ./check $c --tier thorough 2>&1 | grep -E "^OK|VIOLATION|TOOL-ERROR|^C[0-9]+ [0-9.]+s|KNOWN"
 done
